@@ -705,6 +705,18 @@ void cmb_process_stop(struct cmb_process *tgt, void *retval)
         return;
     }
 
+    if (tgt == cmb_process_current()) {
+        /*
+         * Stopping ourselves. The coroutine stop will not return here, do the
+         * clean-up first: cancel whatever we are waiting for (including armed
+         * timers), drop what we hold, tell our waiters that we were stopped.
+         */
+        cmi_process_cancel_awaiteds(tgt);
+        cmi_process_drop_resources(tgt);
+        wake_process_waiters(&(tgt->waiters), CMB_PROCESS_STOPPED);
+        cmi_coroutine_exit(retval);
+    }
+
     /* Stop the underlying coroutine, set its exit value */
     struct cmi_coroutine *cp = (struct cmi_coroutine *)tgt;
     cmi_coroutine_stop(cp, retval);
